@@ -28,6 +28,10 @@ var factTargets = []string{
 	"spatial.RotateBetweenVector", "spatial.QuatFromAxisAngle",
 }
 
+// constFacts: package-level numeric constants ("pkg.Name" → literal fact): a function that names a constant relies on its value
+// exactly as if it had written the literal, so introducing a named constant for a magic number (or inlining one) keeps the set
+var constFacts = map[string]string{}
+
 func recvName(fn *ast.FuncDecl) string {
 	if fn.Recv == nil || len(fn.Recv.List) == 0 {
 		return ""
@@ -66,7 +70,47 @@ func litFact(l *ast.BasicLit) (string, bool) {
 func factsOf(fn *ast.FuncDecl, short string, decls map[string]*ast.FuncDecl, want map[string]bool, seen map[string]bool) []string {
 	var fs []string
 	skip := map[*ast.BasicLit]bool{} // base / bit-size arguments of strconv calls are formatting, not arithmetic
+	skipIdent := map[*ast.Ident]bool{}
 	var callees []string
+	// literals that size or index containers are layout, not arithmetic: array lengths, make() sizes, constant indices and
+	// slice bounds (a table of 8 rows of 3, a pre-sized result, `parts[1]`) come and go with behaviour-preserving rewrites
+	markAll := func(e ast.Node) {
+		if e == nil {
+			return
+		}
+		ast.Inspect(e, func(m ast.Node) bool {
+			if l, ok := m.(*ast.BasicLit); ok {
+				skip[l] = true
+			}
+			if id, ok := m.(*ast.Ident); ok {
+				skipIdent[id] = true
+			}
+			return true
+		})
+	}
+	ast.Inspect(fn.Body, func(n ast.Node) bool {
+		switch v := n.(type) {
+		case *ast.ArrayType:
+			if v.Len != nil {
+				markAll(v.Len)
+			}
+		case *ast.IndexExpr:
+			markAll(v.Index)
+		case *ast.SliceExpr:
+			for _, b := range []ast.Expr{v.Low, v.High, v.Max} {
+				if b != nil {
+					markAll(b)
+				}
+			}
+		case *ast.CallExpr:
+			if id, ok := v.Fun.(*ast.Ident); ok && id.Name == "make" {
+				for _, a := range v.Args[1:] {
+					markAll(a)
+				}
+			}
+		}
+		return true
+	})
 	ast.Inspect(fn.Body, func(n ast.Node) bool {
 		if c, ok := n.(*ast.CallExpr); ok {
 			switch f := c.Fun.(type) {
@@ -95,6 +139,22 @@ func factsOf(fn *ast.FuncDecl, short string, decls map[string]*ast.FuncDecl, wan
 			if s, ok := litFact(n); ok {
 				fs = append(fs, s)
 			}
+		case *ast.SelectorExpr:
+			if id, ok := n.X.(*ast.Ident); ok {
+				if s, ok := constFacts[id.Name+"."+n.Sel.Name]; ok {
+					fs = append(fs, s)
+				}
+			}
+			return false
+		case *ast.Ident:
+			if skipIdent[n] {
+				return true
+			}
+			if n.Obj == nil || n.Obj.Kind == ast.Con {
+				if s, ok := constFacts[short+"."+n.Name]; ok {
+					fs = append(fs, s)
+				}
+			}
 		}
 		return true
 	})
@@ -121,6 +181,30 @@ func genFacts(pkgs []*pkgInfo, out string) {
 			for _, d := range f.Decls {
 				if fd, ok := d.(*ast.FuncDecl); ok {
 					decls[short+"."+recvName(fd)+fd.Name.Name] = fd
+				}
+			}
+		}
+	}
+	for _, p := range pkgs {
+		short := filepath.Base(p.name)
+		for _, f := range p.files {
+			for _, d := range f.Decls {
+				gd, ok := d.(*ast.GenDecl)
+				if !ok || gd.Tok != token.CONST {
+					continue
+				}
+				for _, sp := range gd.Specs {
+					vs := sp.(*ast.ValueSpec)
+					for i, n := range vs.Names {
+						if i >= len(vs.Values) {
+							continue
+						}
+						if l, ok := vs.Values[i].(*ast.BasicLit); ok {
+							if s, ok := litFact(l); ok {
+								constFacts[short+"."+n.Name] = s
+							}
+						}
+					}
 				}
 			}
 		}
